@@ -177,8 +177,17 @@ Record mon := {
 
 Definition viol (b : bool) (clause : N) : verdict := if b then V_ok else V_violation clause.
 Definition mism (b : bool) (code : N) : verdict := if b then V_ok else V_mismatch code.
-(* clause 1 / 3 failures after a restart that skipped the repair with a torn record in place
-   belong to known finding 9 *)
+(* Known finding 9 (F24): State.OnStart repairs a torn tail only when catchupReplay itself runs
+   into it.  A clause 1 / 3 failure belongs to that finding only when it follows a restart
+   after which, BY THE SPECIFICATION OF THE START-UP, a partial record is left in place: the
+   crash cut a frame (journal and crash offset) and the start-up transcribed in Model.restart,
+   run on the log as the correct code would have left it, does not repair -- doWALCatchup is
+   false, or catchupReplay ends before the replay with a non-corruption error (#ENDHEIGHT h
+   already in the log, h below the initial height, no #ENDHEIGHT for h-1 found).  This is the
+   model's answer ([mrep] below), never the status or the repaired flag the implementation
+   reports: an implementation that skips a repair that is due (the replay from #ENDHEIGHT h-1
+   runs into the partial record) is NOT in the class; the failures of its later readers are
+   violations, and its restart answer disagrees with the model (observable 13). *)
 Definition viol_k (tainted : bool) (b : bool) (clause : N) : verdict :=
   if b then V_ok else if tainted then V_known 9 else V_violation clause.
 
@@ -278,7 +287,9 @@ Definition files_kept (prev now : snap) (rotated : bool) : bool :=
   && zl_eqb (skipn k (idxs_of now)) ip && increasing (idxs_of now)
   && Nat.eqb (List.length (idxs_of now)) (List.length sn).
 
-Definition mon_step (m : mon) (o : xop) (a : xans) (sn : snap) : mon :=
+(* [mrep] = Some b: the operation is a restart and the start-up of the model repaired (b = true)
+   or did not repair (b = false); None: no restart, or the model was not run this far *)
+Definition mon_step (m : mon) (o : xop) (a : xans) (sn : snap) (mrep : option bool) : mon :=
   let prev := m_prev m in
   let created := (List.length (sizes_of sn) - List.length (sizes_of prev))%nat in
   match o, a with
@@ -315,7 +326,8 @@ Definition mon_step (m : mon) (o : xop) (a : xans) (sn : snap) : mon :=
               else viol_k (m_tainted m) (is_prefix durable allb) 1 in
     let v2 := viol (is_subseq allb written) 2 in
     let is_torn := torn keep (m_hu m) in
-    let taint := m_tainted m || (negb (status =? 0)%N && is_torn) in
+    let taint := m_tainted m
+                 || (is_torn && match mrep with Some false => true | _ => false end) in
     (* the head after the crash: its synced records, the unsynced ones that survived whole, a
        partial record behind them when the cut fell inside a frame *)
     let on_disk := m_hs m ++ kept_of (Z.max 0 keep) (m_hu m) in
@@ -362,9 +374,11 @@ Definition mon_step (m : mon) (o : xop) (a : xans) (sn : snap) : mon :=
   | _, _ => add_verd m [V_mismatch 10] sn
   end.
 
-Fixpoint mon_run (m : mon) (ops : list xop) (ans : list xans) (sns : list snap) : mon :=
+Fixpoint mon_run (m : mon) (ops : list xop) (ans : list xans) (sns : list snap)
+                 (mreps : list (option bool)) : mon :=
   match ops, ans, sns with
-  | o :: ops', a :: ans', sn :: sns' => mon_run (mon_step m o a sn) ops' ans' sns'
+  | o :: ops', a :: ans', sn :: sns' =>
+    mon_run (mon_step m o a sn (hd None mreps)) ops' ans' sns' (tl mreps)
   | _, _, _ => m
   end.
 End Mon.
@@ -399,20 +413,18 @@ Definition check (c : case) : verdict :=
   | CWal hl tl base pre ops answers snaps ffiles fhead =>
     let prer := map (map (fun x : pl * option Z => unpl (fst x))) pre in
     let tab := flat_map (map (fun x : pl * option Z => (unpl (fst x), snd x))) pre ++ tags_of ops in
+    (* the model first (guarded against materialising thousands of files, see [too_far]): its
+       restarts say where the specification of the start-up leaves a partial record *)
+    let '(s, mans, msnaps, ok) :=
+      mrun (lookup tab) (init_at crc32c_be hl tl base prer) (map mop ops) in
+    let mreps := map (fun a => match a with ARestart _ rp _ _ _ => Some rp | _ => None end) mans in
     let m := mon_run tab {| m_segs := prer; m_hs := []; m_hu := []; m_hpart := None;
                             m_flipped := false;
                             m_tainted := false; m_prev := snap0 base prer; m_verd := [] |}
-                     ops answers snaps in
-    (* a failed monitor is the verdict; the model is evaluated only when all monitors hold *)
-    match filter is_violation (m_verd m) with
-    | v :: _ => v
-    | [] =>
-      let '(s, mans, msnaps, ok) :=
-        mrun (lookup tab) (init_at crc32c_be hl tl base prer) (map mop ops) in
-      if negb ok then first_of (m_verd m ++ [V_mismatch 19]) else
-      first_of (m_verd m ++
-                cmp_answers mans answers ++ cmp_snaps msnaps snaps ++
-                [ mism (list_eqb bytes_eqb (files s) (map unpl ffiles)) 17;
-                  mism (bytes_eqb (head s ++ buf s) (unpl fhead)) 18 ])
-    end
+                     ops answers snaps mreps in
+    if negb ok then first_of (m_verd m ++ [V_mismatch 19]) else
+    first_of (m_verd m ++
+              cmp_answers mans answers ++ cmp_snaps msnaps snaps ++
+              [ mism (list_eqb bytes_eqb (files s) (map unpl ffiles)) 17;
+                mism (bytes_eqb (head s ++ buf s) (unpl fhead)) 18 ])
   end.
